@@ -74,6 +74,13 @@ def _mk_body(mod, ctx, res, known_sigs, shrink_cap):
                 slot[0] += 1
                 if len(cj) < len(slot[1]):
                     slot[1] = cj
+                info = getattr(v, 'info', None)
+                if info is not None:
+                    # everything else about the case was checked before the known finding was reported
+                    for c in info.classes:
+                        res.classes[c] += 1
+                    if info.nontrivial:
+                        res.nontrivial.add(_h(jsonx.canon(case)))
                 return
             if state['first_fail'] is None:
                 state['first_fail'] = time.time()
